@@ -52,6 +52,8 @@ package erpc
 
 //@ func (*peer).getContext
 //@   property C20
+//@   flags frame-unchecked
+//@   modifies fields(result), msgUser(as(result.input, type(*socket.message))), msgUser(as(result.output, type(*socket.message))), as(result.input, type(*socket.message)).newBodyFunc, as(result.input, type(*socket.message)).size, as(result.input, type(*socket.message)).seq, as(result.input, type(*socket.message)).mtype, as(result.output, type(*socket.message)).newBodyFunc, as(result.output, type(*socket.message)).size, as(result.output, type(*socket.message)).seq, as(result.output, type(*socket.message)).mtype, allelems(type(byte)), waitgroups
 //@   requires s != nil && s.socket != nil
 //@   ensures[recycled-like-new] result.sess == s && result.handler == nil && result.callCmd == nil && result.cost == 0 && result.pluginContainer == nil && result.stat == nil && result.context == nil && freshMsg(as(result.output, type(*socket.message)))
 
@@ -85,9 +87,10 @@ package erpc
 //@   ensures[service-method-restored] mo.serviceMethod == old(mo.serviceMethod)
 
 //@ func (*handlerCtx).handleCall
-//@   property C12
+//@   property C12 C09
 //@   flags recover-scope
 //@   requires ctxShape(c) && c.sess != nil
+//@   requires @C09 c.pluginContainer != nil && (c.handler != nil ==> c.pluginContainer == c.handler.pluginContainer)
 
 // ---- user code (handlers, plugins) --------------------------------------------
 // Handlers and plugin hooks act on a context only through its public interface:
@@ -132,6 +135,7 @@ package erpc
 //@   ghostset ghost.trace = tcat(old(ghost.trace), ev(self, type(PreWriteCallPlugin)))
 //@ func (*pluginSingleContainer).preWriteCall
 //@   property C09
+//@   ghostset ghost.preWriteCallRuns = old(ghost.preWriteCallRuns) + 1
 //@   flags libframe may-panic
 //@   modifies userCmd(as(ctx, type(*callCmd))), ghost.trace
 //@   loop 0: invariant[in-order-once] $idx >= -1 && $idx < len(p.plugins) && ghost.trace == trS(rowof(p.plugins), off(p.plugins), $idx + 1, type(PreWriteCallPlugin), old(ghost.trace))
@@ -158,6 +162,7 @@ package erpc
 //@   ghostset ghost.trace = tcat(old(ghost.trace), ev(self, type(PreWriteReplyPlugin)))
 //@ func (*pluginSingleContainer).preWriteReply
 //@   property C09
+//@   requires[route-chain] @C09 as(ctx, type(*handlerCtx)).handler != nil ==> p == as(ctx, type(*handlerCtx)).handler.pluginContainer.pluginSingleContainer
 //@   flags libframe may-panic
 //@   modifies userCtx(as(ctx, type(*handlerCtx))), ghost.trace
 //@   loop 0: invariant[in-order-once] $idx >= -1 && $idx < len(p.plugins) && ghost.trace == trS(rowof(p.plugins), off(p.plugins), $idx + 1, type(PreWriteReplyPlugin), old(ghost.trace))
@@ -169,6 +174,7 @@ package erpc
 //@   ghostset ghost.trace = tcat(old(ghost.trace), ev(self, type(PostWriteReplyPlugin)))
 //@ func (*pluginSingleContainer).postWriteReply
 //@   property C09
+//@   requires[route-chain] @C09 as(ctx, type(*handlerCtx)).handler != nil ==> p == as(ctx, type(*handlerCtx)).handler.pluginContainer.pluginSingleContainer
 //@   flags libframe may-panic
 //@   modifies userCtx(as(ctx, type(*handlerCtx))), ghost.trace
 //@   loop 0: invariant[in-order-once] $idx >= -1 && $idx < len(p.plugins) && ghost.trace == trS(rowof(p.plugins), off(p.plugins), $idx + 1, type(PostWriteReplyPlugin), old(ghost.trace))
@@ -180,6 +186,7 @@ package erpc
 //@   ghostset ghost.trace = tcat(old(ghost.trace), ev(self, type(PreWritePushPlugin)))
 //@ func (*pluginSingleContainer).preWritePush
 //@   property C09
+//@   ghostset ghost.preWritePushRuns = old(ghost.preWritePushRuns) + 1
 //@   flags libframe may-panic
 //@   modifies userCtx(as(ctx, type(*handlerCtx))), ghost.trace
 //@   loop 0: invariant[in-order-once] $idx >= -1 && $idx < len(p.plugins) && ghost.trace == trS(rowof(p.plugins), off(p.plugins), $idx + 1, type(PreWritePushPlugin), old(ghost.trace))
@@ -218,6 +225,7 @@ package erpc
 //@   ghostset ghost.trace = tcat(old(ghost.trace), ev(self, type(PostReadCallHeaderPlugin)))
 //@ func (*pluginSingleContainer).postReadCallHeader
 //@   property C09
+//@   requires[global-chain] @C09 p == as(ctx, type(*handlerCtx)).sess.peer.pluginContainer.pluginSingleContainer
 //@   flags libframe may-panic
 //@   modifies userCtx(as(ctx, type(*handlerCtx))), ghost.trace
 //@   loop 0: invariant[in-order-once] $idx >= -1 && $idx < len(p.plugins) && ghost.trace == trS(rowof(p.plugins), off(p.plugins), $idx + 1, type(PostReadCallHeaderPlugin), old(ghost.trace))
@@ -231,6 +239,7 @@ package erpc
 //@   ghostset ghost.trace = tcat(old(ghost.trace), ev(self, type(PreReadCallBodyPlugin)))
 //@ func (*pluginSingleContainer).preReadCallBody
 //@   property C09
+//@   requires[route-chain] @C09 as(ctx, type(*handlerCtx)).handler != nil ==> p == as(ctx, type(*handlerCtx)).handler.pluginContainer.pluginSingleContainer
 //@   flags libframe may-panic
 //@   modifies userCtx(as(ctx, type(*handlerCtx))), ghost.trace
 //@   loop 0: invariant[in-order-once] $idx >= -1 && $idx < len(p.plugins) && ghost.trace == trS(rowof(p.plugins), off(p.plugins), $idx + 1, type(PreReadCallBodyPlugin), old(ghost.trace))
@@ -244,6 +253,7 @@ package erpc
 //@   ghostset ghost.trace = tcat(old(ghost.trace), ev(self, type(PostReadCallBodyPlugin)))
 //@ func (*pluginSingleContainer).postReadCallBody
 //@   property C09
+//@   requires[route-chain] @C09 as(ctx, type(*handlerCtx)).handler != nil ==> p == as(ctx, type(*handlerCtx)).handler.pluginContainer.pluginSingleContainer
 //@   flags libframe may-panic
 //@   modifies userCtx(as(ctx, type(*handlerCtx))), ghost.trace
 //@   loop 0: invariant[in-order-once] $idx >= -1 && $idx < len(p.plugins) && ghost.trace == trS(rowof(p.plugins), off(p.plugins), $idx + 1, type(PostReadCallBodyPlugin), old(ghost.trace))
@@ -257,6 +267,7 @@ package erpc
 //@   ghostset ghost.trace = tcat(old(ghost.trace), ev(self, type(PostReadPushHeaderPlugin)))
 //@ func (*pluginSingleContainer).postReadPushHeader
 //@   property C09
+//@   requires[global-chain] @C09 p == as(ctx, type(*handlerCtx)).sess.peer.pluginContainer.pluginSingleContainer
 //@   flags libframe may-panic
 //@   modifies userCtx(as(ctx, type(*handlerCtx))), ghost.trace
 //@   loop 0: invariant[in-order-once] $idx >= -1 && $idx < len(p.plugins) && ghost.trace == trS(rowof(p.plugins), off(p.plugins), $idx + 1, type(PostReadPushHeaderPlugin), old(ghost.trace))
@@ -270,6 +281,7 @@ package erpc
 //@   ghostset ghost.trace = tcat(old(ghost.trace), ev(self, type(PreReadPushBodyPlugin)))
 //@ func (*pluginSingleContainer).preReadPushBody
 //@   property C09
+//@   requires[route-chain] @C09 as(ctx, type(*handlerCtx)).handler != nil ==> p == as(ctx, type(*handlerCtx)).handler.pluginContainer.pluginSingleContainer
 //@   flags libframe may-panic
 //@   modifies userCtx(as(ctx, type(*handlerCtx))), ghost.trace
 //@   loop 0: invariant[in-order-once] $idx >= -1 && $idx < len(p.plugins) && ghost.trace == trS(rowof(p.plugins), off(p.plugins), $idx + 1, type(PreReadPushBodyPlugin), old(ghost.trace))
@@ -283,6 +295,7 @@ package erpc
 //@   ghostset ghost.trace = tcat(old(ghost.trace), ev(self, type(PostReadPushBodyPlugin)))
 //@ func (*pluginSingleContainer).postReadPushBody
 //@   property C09
+//@   requires[route-chain] @C09 as(ctx, type(*handlerCtx)).handler != nil ==> p == as(ctx, type(*handlerCtx)).handler.pluginContainer.pluginSingleContainer
 //@   flags libframe may-panic
 //@   modifies userCtx(as(ctx, type(*handlerCtx))), ghost.trace
 //@   loop 0: invariant[in-order-once] $idx >= -1 && $idx < len(p.plugins) && ghost.trace == trS(rowof(p.plugins), off(p.plugins), $idx + 1, type(PostReadPushBodyPlugin), old(ghost.trace))
@@ -378,3 +391,47 @@ package erpc
 //@   property C09
 //@   ensures[refreshes-older] ghost.invoked[oldRefreshTree]
 //@   ensures[refreshes-subtree] ghost.invoked[old(newPluginContainer.refreshTree)]
+
+// ---- C09: stage call sites ------------------------------------------------------
+// pre-write hooks run exactly once per call/push even when the write is retried
+// after a redial; the stage functions count themselves in a ghost field.
+//@ ghost global preWriteCallRuns int
+//@ ghost global preWritePushRuns int
+
+//@ func (*handlerCtx).bindPush
+//@   property C09
+//@   requires sentinelsIntact() && c.handler == nil
+//@   requires c.sess != nil && c.sess.peer != nil && c.pluginContainer == c.sess.peer.pluginContainer && c.pluginContainer != nil
+//@   ensures[route-container] c.handler != nil && statOK(c.stat) ==> c.pluginContainer == c.handler.pluginContainer
+//@ func (*handlerCtx).bindCall
+//@   property C09
+//@   requires sentinelsIntact() && c.handler == nil
+//@   requires c.sess != nil && c.sess.peer != nil && c.pluginContainer == c.sess.peer.pluginContainer && c.pluginContainer != nil
+//@   ensures[route-container] c.handler != nil && statOK(c.stat) ==> c.pluginContainer == c.handler.pluginContainer
+//@ func (*handlerCtx).handlePush
+//@   property C09
+//@   flags recover-scope
+//@   requires ctxShape(c) && c.sess != nil && (c.handler != nil && statOK(c.stat) ==> c.pluginContainer == c.handler.pluginContainer)
+
+// route lookup through the session's handler getters (method values of the
+// router's getCall/getPush, see C10): read-only
+//@ iface dynamic:func(serviceMethodPath string) (*erpc.Handler, bool)
+//@   flags pure
+
+//@ trusted (*session).redialForClient
+//@   flags libframe
+//@   modifies allof(type(session)), allof(type(socket.socket)), lockset, waitgroups
+
+//@ func (*session).AsyncCall
+//@   property C09
+//@   flags recover-scope
+//@   requires s.peer != nil && s.peer.pluginContainer != nil && s.socket != nil
+//@   ensures[pre-write-hooks-once] ghost.preWriteCallRuns == old(ghost.preWriteCallRuns) + 1
+//@   loop 1: invariant[hooks-ran-once] ghost.preWriteCallRuns == old(ghost.preWriteCallRuns) + 1
+
+//@ func (*session).Push
+//@   property C09
+//@   flags recover-scope
+//@   requires s.peer != nil && s.peer.pluginContainer != nil && s.socket != nil
+//@   ensures[pre-write-hooks-once] ghost.preWritePushRuns == old(ghost.preWritePushRuns) + 1
+//@   loop 1: invariant[hooks-ran-once] ghost.preWritePushRuns == old(ghost.preWritePushRuns) + 1
